@@ -201,6 +201,14 @@ TEMPLATE = r'''// GENERATED by vlib/gen_machine.py — machine correspondence ha
 #include <vector>
 #include <sstream>
 #include <iostream>
+#ifdef VERIF_MEMCHECK
+// memcheck pass (C18): the bytes an instance is constructed over keep their fill pattern but count as indeterminate,
+// so a member the library never initialises and later reads is reported at the read
+#include <valgrind/memcheck.h>
+#define VERIF_UNDEFINED(p, n) VALGRIND_MAKE_MEM_UNDEFINED(p, n)
+#else
+#define VERIF_UNDEFINED(p, n) ((void) 0)
+#endif
 
 #define N_STATES %(n)d
 #define CFG_MANUAL %(manual)d
@@ -581,6 +589,7 @@ static void rejected(const char* name) { std::printf("rejected i%%u op%%u %%s\n"
 
 static Instance* construct(unsigned i, bool logger, int fill) {
 	std::memset(g_buf[i], fill, sizeof(g_buf[i]));
+	VERIF_UNDEFINED(g_buf[i], sizeof(g_buf[i]));
 	g_cur = reinterpret_cast<Instance*>(g_buf[i]);
 #if CFG_LOG
 	Logger* lg = logger ? &g_logger : nullptr;
@@ -673,6 +682,7 @@ int main() {
 			unsigned src = w.size() > 3 ? num(w[3]) : 99;
 			if (exists || src >= SLOTS || !g_m[src]) { rejected("copy"); continue; }
 			std::memset(g_buf[i], w.size() > 4 ? static_cast<int>(num(w[4])) : 0, sizeof(g_buf[i]));
+			VERIF_UNDEFINED(g_buf[i], sizeof(g_buf[i]));
 			g_cur = reinterpret_cast<Instance*>(g_buf[i]);
 			m = g_m[i] = new (g_buf[i]) Instance{*g_m[src]};
 			apiLine("copy", m, -1, "~");
